@@ -211,8 +211,18 @@ type sver struct {
 
 type view struct {
 	lo, hi uint64
-	proj   [2][]pver // per project, per block lo..hi
+	blocks []uint64  // observed blocks, ascending
+	proj   [2][]pver // per project, per observed block
 	sub    []sver
+}
+
+func (v view) index(b uint64) int {
+	for i, x := range v.blocks {
+		if x == b {
+			return i
+		}
+	}
+	panic(fmt.Sprintf("harness: block %d is not observed (window %d..%d)", b, v.lo, v.hi))
 }
 
 func (s *scen) window() (lo, hi uint64) {
@@ -225,12 +235,22 @@ func (s *scen) window() (lo, hi uint64) {
 	return lo, hi
 }
 
-func (s *scen) look() view {
+// look reads the projects and the subscription at the blocks of the window: every block (full), or every
+// epoch start plus the current height (entries of the fixation stores are piecewise constant; the full
+// window is read after every block-advancing operation).
+func (s *scen) look(full bool) view {
 	w := s.w
 	v := view{}
 	v.lo, v.hi = s.window()
 	owner := s.accs[0].Addr.String()
+	height := uint64(w.Ctx.BlockHeight())
 	for b := v.lo; b <= v.hi; b++ {
+		if !full && b != height && b != v.lo && b != v.hi {
+			if es, _, err := w.Keepers.Epochstorage.GetEpochStartForBlock(w.Ctx, b); err != nil || es != b {
+				continue
+			}
+		}
+		v.blocks = append(v.blocks, b)
 		for pi := range s.projs {
 			var pv pver
 			p, err := w.Keepers.Projects.GetProjectForBlock(w.Ctx, s.projs[pi], b)
@@ -263,8 +283,7 @@ func (s *scen) invariants(v view) (out []ev.Violation, resolved int) {
 			out = append(out, viol(key, what))
 		}
 	}
-	for b := v.lo; b <= v.hi; b++ {
-		i := int(b - v.lo)
+	for i, b := range v.blocks {
 		for ki := range s.accs {
 			n := 0
 			for pi := range s.projs {
@@ -325,7 +344,7 @@ func (s *scen) Apply(op int) bfs.Step {
 		if st, bad := s.blockStep(p); bad {
 			return st
 		}
-		vs, _ := s.invariants(s.look())
+		vs, _ := s.invariants(s.look(true))
 		if len(vs) > 0 {
 			return bfs.Step{Accepted: true, Obs: "violation", Viol: vs}
 		}
@@ -347,7 +366,7 @@ func (s *scen) Apply(op int) bfs.Step {
 	if !res.OK() {
 		return bfs.Step{Accepted: false, Obs: obs + "-rejected"}
 	}
-	vs, _ := s.invariants(s.look())
+	vs, _ := s.invariants(s.look(false))
 	if len(vs) > 0 {
 		return bfs.Step{Accepted: true, Obs: "violation", Viol: vs}
 	}
@@ -369,7 +388,7 @@ func (s *scen) relay(o opdef) bfs.Step {
 	}
 	signer := s.accs[o.signer].Addr.String()
 	resolved, rerr := w.Keepers.Projects.GetProjectForDeveloper(w.Ctx, signer, epoch)
-	before := s.look()
+	before := s.look(false)
 	rs := s.mkRelay(o.signer, epoch, 0, o.cu, s.nextSession)
 	res := w.Pay(s.provs[0].Addr.String(), rs)
 	if res.Panic != "" {
@@ -379,7 +398,7 @@ func (s *scen) relay(o opdef) bfs.Step {
 		return bfs.Step{Accepted: false, Obs: "relay-rejected"}
 	}
 	s.nextSession++
-	after := s.look()
+	after := s.look(false)
 	var vs []ev.Violation
 	if rerr != nil {
 		vs = append(vs, viol("relay-accepted-for-unresolved-key", fmt.Sprintf("%s accepted at height %d although key %s resolves to no project at epoch %d", o.name, w.Ctx.BlockHeight(), keyNames[o.signer], epoch)))
@@ -405,9 +424,20 @@ func (s *scen) relay(o opdef) bfs.Step {
 	versionsCharged := 0
 	for pi := range s.projs {
 		var lastCharged pver
-		for b := before.lo; b <= before.hi; b++ {
-			i := int(b - before.lo)
+		// the snapshot period the relay belongs to: the versions from the relay's epoch on that carry the resolved
+		// snapshot number. A newer snapshot ends it for good (later versions must not be charged). After a deletion
+		// gap a project re-created under the same name may or may not count as "that project" (the property does
+		// not say): its versions with the same snapshot number are then allowed to carry the charge or not.
+		inRun, gap := true, false
+		for i, b := range before.blocks {
 			pb, pa := before.proj[pi][i], after.proj[pi][i]
+			if b >= epoch {
+				if !pb.found {
+					gap = true
+				} else if pb.snap != resolved.Snapshot {
+					inRun = false
+				}
+			}
 			if pb.found != pa.found || pb.snap != pa.snap {
 				add("charge:project-version-set-changed", fmt.Sprintf("%s changed existence/snapshot of project %s at block %d", o.name, projNames[pi], b))
 				continue
@@ -416,8 +446,12 @@ func (s *scen) relay(o opdef) bfs.Step {
 				continue
 			}
 			delta := pa.used - pb.used
-			same := pi == rpi && pb.snap == resolved.Snapshot
+			same := pi == rpi && pb.snap == resolved.Snapshot && (b < epoch || inRun)
 			switch {
+			case same && b >= epoch && gap:
+				if delta != 0 && delta != o.cu {
+					add("charge:recreated-project-odd-delta", fmt.Sprintf("%s: UsedCu of the re-created %s at block %d moved by %d", o.name, projNames[pi], b, delta))
+				}
 			case same && b >= epoch:
 				if delta != o.cu {
 					key := "charge:project-version-not-charged-once"
@@ -447,8 +481,7 @@ func (s *scen) relay(o opdef) bfs.Step {
 		obs = "relay-ok-multi-version"
 	}
 	// subscription: the version in force at the relay's epoch pays min(cu, left), once; other versions untouched
-	ie := int(epoch - before.lo)
-	sb := before.sub[ie]
+	sb := before.sub[before.index(epoch)]
 	if !sb.found {
 		add("charge:no-subscription-at-epoch", fmt.Sprintf("%s accepted but the subscription has no version at epoch %d", o.name, epoch))
 	} else {
@@ -457,8 +490,7 @@ func (s *scen) relay(o opdef) bfs.Step {
 			want = sb.left
 			obs += "-capped"
 		}
-		for b := before.lo; b <= before.hi; b++ {
-			i := int(b - before.lo)
+		for i, b := range before.blocks {
 			xb, xa := before.sub[i], after.sub[i]
 			if xb.found != xa.found || xb.block != xa.block {
 				add("charge:subscription-version-set-changed", fmt.Sprintf("%s changed the subscription versions at block %d", o.name, b))
@@ -504,9 +536,9 @@ func init() {
 			depth    int
 			deadline time.Duration
 		}
-		lims := map[string]lim{"seeded": {5, 45 * time.Second}, "fresh": {4, 10 * time.Second}}
+		lims := map[string]lim{"seeded": {4, 35 * time.Second}, "fresh": {4, 15 * time.Second}}
 		if ev.Tier() == "thorough" {
-			lims = map[string]lim{"seeded": {6, 8 * time.Minute}, "fresh": {7, 7 * time.Minute}}
+			lims = map[string]lim{"seeded": {6, 10 * time.Minute}, "fresh": {6, 5 * time.Minute}}
 		}
 		depth := lims["seeded"].depth
 		exh := true
@@ -517,7 +549,7 @@ func init() {
 			exh = exh && st.Exhaustive
 		}
 		run.Set("exhaustive", exh)
-		run.Set("bound", fmt.Sprintf("all histories up to depth %d from the seeded start and depth %d from the fresh start over 17 ops (add/del project p2, add/del developer key k and admin+developer key a on the admin project and p2 by the owner or by a, relays signed by k for the current/previous/oldest epoch, by a and by the owner with CU 1,2,4,8,64, next epoch, +31 days) from 2 start states (fresh 2-month subscription; p2 with k and a existing for 4 epochs with usage); plan total CU 100; window checked at every state = every block from the earliest epoch in memory to the next epoch", depth, lims["fresh"].depth))
+		run.Set("bound", fmt.Sprintf("all histories up to depth %d from the seeded start and depth %d from the fresh start over 17 ops (add/del project p2, add/del developer key k and admin+developer key a on the admin project and p2 by the owner or by a, relays signed by k for the current/previous/oldest epoch, by a and by the owner with CU 1,2,4,8,64, next epoch, +31 days) from 2 start states (fresh 2-month subscription; p2 with k and a existing for 4 epochs with usage); plan total CU 100; window observed at every state = every epoch start from the earliest epoch in memory to the next epoch plus the current height, and every single block of that range after each block-advancing op", depth, lims["fresh"].depth))
 		run.Assume("mock bank/account keeper of testutil/keeper; transactions atomic as in baseapp; a charge must be visible in every project version in force at or after the relay's epoch within the same snapshot (versions superseded before the relay's epoch are not required to carry it)")
 	}})
 }
